@@ -253,11 +253,25 @@ def features(t):
             for a in e[2]:
                 walk(a)
     for p in t[1]:
-        if p[1]:
+        maydoc = p[1]          # may the node-set contain the document node?
+        for s in p[2]:
+            ax, tt = s[1][1], s[2]
+            typetest = tt[0] in ("typetest", "pitest")
+            wrong = typetest and tt != ("typetest", "TagNode")
+            if maydoc:
+                if ax not in ("self", "child", "descendant", "descendant_or_self"):
+                    f.add("h")
+                maydoc = ax in ("self", "descendant_or_self") and typetest
+                if maydoc and (wrong or s[3]):
+                    f.add("h")
+            elif ax in ("parent", "ancestor", "ancestor_or_self"):
+                if typetest:
+                    maydoc = True
+                    if wrong or s[3]:
+                        f.add("h")
+        if maydoc:
             f.add("h")
         for s in p[2]:
-            if s[1][1] in ("parent", "ancestor", "ancestor_or_self"):
-                f.add("h")
             if s[1][1] not in xpath_ast.AXES:
                 f.add("l")
             for e in s[3]:
